@@ -451,3 +451,44 @@ def history_free(ctx):
     from .common_cache import history_reads as run
     run(ctx, 'keys', [['Key', 'HDKey']], 'Key / HDKey',
         'after k.address_uncompressed() the children of k carry a parent fingerprint computed over the uncompressed point: their extended keys are not the BIP32 ones')
+
+
+@PROP.obligation('C03.index-domain', canaries=[
+    mut.insert_before('keys', 'HDKey.child_private', 'if hardened or index >= 2147483648:', "if not 0 <= index < 4294967295:\n    raise BKeyError('index out of range')", 'last child number 2^32-1 refused'),
+])
+def index_domain(ctx):
+    """Every child number 0 .. 2^32-1 can be derived: HDKey.child_private (private parent) and HDKey.child_public (indexes below 2^31),
+    evaluated with the index symbolic, have no raising path that is decided by the index alone for the boundary numbers 0, 1, 2^31-1, 2^31,
+    2^32-2 and 2^32-1 (the only index-dependent refusal is child_public for hardened numbers)."""
+    for name, values, args in (('child_private', (0, 1, 2 ** 31 - 1, 2 ** 31, 2 ** 32 - 2, 2 ** 32 - 1), {'index': S(INDEX, 'int'), 'hardened': False}),
+                               ('child_public', (0, 1, 2 ** 31 - 2, 2 ** 31 - 1), {'index': S(INDEX, 'int')})):
+        q = 'keys:HDKey.' + name
+        fn = ctx.repo.func(q)
+        it = _interp(ctx.repo)
+        try:
+            exits = it.run_function(fn, dict(args))
+        except AnalysisError as e:
+            ctx.undecided('%s not evaluable: %s' % (q, str(e)[:100]))
+        n = 0
+        for e in exits:
+            if e.kind != 'raise':
+                continue
+            n += 1
+            for v in values:
+                decided = []
+                for t, pol in e.pc:
+                    try:
+                        r = intv.truth_eval(intv.specialise(t, {INDEX: v}), {})
+                        decided.append(None if isinstance(r, tuple) else bool(r) == pol)
+                    except (intv.Unknown, KeyError, TypeError, ZeroDivisionError):
+                        decided.append(None)
+                # only conjuncts about the index count; the others (is_private, result of the HMAC) are the caller's / the data's business
+                about_index = [d for (t, pol), d in zip(e.pc, decided) if any(s_ == INDEX for s_ in subterms(('w', t)))]
+                if about_index and all(d is True for d in about_index) and not any(d is False for d in decided):
+                    others = [show(t)[:50] for (t, pol), d in zip(e.pc, decided) if d is None]
+                    if others and not all('is_private' in o for o in others):
+                        continue
+                    ctx.violate(q, 'child number %d is refused (%s)' % (v, ' and '.join(('' if pol else 'not ') + show(t) for t, pol in e.pc)[:140]), e.node or fn,
+                                "m/0/4294967295 (= 2147483647', the last child number, which BIP32 test vector 2 passes through) cannot be derived")
+                    break
+        ctx.saw('%s: %d raising path(s), none decided by a child number of its domain' % (name, n))
